@@ -67,4 +67,4 @@ def run(rebound, integ, mode, fn, resume=None):
 if __name__ == "__main__":
     sys.path.insert(0, sys.argv[1])
     import rebound
-    run(rebound, sys.argv[2], sys.argv[3], sys.argv[4])
+    run(rebound, sys.argv[2], sys.argv[3], sys.argv[4], resume=(int(sys.argv[5]) if len(sys.argv) > 5 else None))
